@@ -36,6 +36,10 @@ def apply(outs: dict[str, Any], spec: dict) -> tuple[dict[str, Any], dict]:
                 return x.tagged(usertags.FooTag())
             return x
         if isinstance(x, pt.NamedArray):
+            # a result of a loopy call is a non-input array like any other
+            if "user" in kinds and rng.random() < p / 2:
+                bump("user_on_named")
+                return x.tagged(usertags.FooTag())
             return x
         if rng.random() >= p:
             return x
